@@ -20,11 +20,12 @@
        shortest decimal is std's, Model/Encode.v `float_marker`); a stored key repr is a simple-key spelling
        the key, an absent one needs a UTF-8 key;
      * arrays and inline tables hold values only; tables hold no `Item::None`; an array of tables has at
-       least one element and its elements are not dotted; the keys of every table are distinct; a table made of
-       dotted keys (and likewise a dotted inline table below a table or an inline table) has at least one
-       key/value line of its own, directly or through dotted tables (otherwise nothing creates it);
-     * a table that prints no `[header]` (implicit, no key/value line) has a header printed below it
-       (otherwise it vanishes);
+       least one element and its elements are not dotted; the keys of every table are distinct; a dotted inline
+       table (below a table or an inline table) has at least one entry (otherwise nothing creates it);
+     * a table that prints no `[header]` and has no key/value line of its own (directly or through tables made of
+       dotted keys) — an implicit table without lines, or a table made of dotted keys whose lines are gone (edits:
+       Table::insert of a table over its last value) — has a header printed below it (otherwise it vanishes); a table
+       made of dotted keys without a line is then, in the printed text, a super-table of that header;
      * the implementation limits (Spec/Syntax.v `within`, `stmt_within`);
      * `order_ok`: the `position`s let the sections come out in an order that defines the same tables
        (Proofs/WFOrder.v; for now: positions are non-decreasing along the pre-order walk, as for every
@@ -186,7 +187,7 @@ Fixpoint tbl_wf (top : bool) (t : tbl) {struct t} : Prop :=
                 | INone => False
                 | IValue _ => pair_wf true (snd kv)
                 | ITable sub =>
-                  tbl_wf false sub /\ (if t_dotted sub then has_line sub = true
+                  tbl_wf false sub /\ (if t_dotted sub then has_line sub = true \/ prints_header sub = true
                                  else shown sub = true \/ prints_header sub = true)
                 | IAot ts _ =>
                   ts <> [] /\ all_P (fun e => t_dotted e = false /\ tbl_wf false e) ts
